@@ -133,12 +133,12 @@ def gen_read_session(rng, page, regions, wild):
     return ops
 
 
-def gen_misc(rng, page, regions):
+def gen_misc(rng, page, regions, wild=True):
     r = rng.random()
     if r < 0.3:
         return [rng.choice(["cp 00", "cp 02", "cp 04", "cp 07", "cp 06" + le(rng.choice([0x1000, 0xdeadbeef])), "cp 05", "cp 0501"]), "out"]
     if r < 0.5:
-        return ["rd " + rng.choice(["cp", "data", "prog"])]
+        return ["rd " + rng.choice(["cp", "data", "prog"] if wild else ["cp", "data"])]
     if r < 0.7:
         return [rng.choice(["cp ", "cpc ", "data ", "datac "]) + rnd_hex(rng, rng.randrange(0, 21))]
     opc = rng.choice([0, 1, 2, 3, 4, 5, 6, 7, 8, 9, 0x80, 0xff])
@@ -159,7 +159,7 @@ def gen_case(rng, page, regions, kind):
         elif r < 0.85:
             ops += gen_read_session(rng, page, regions, wild)
         else:
-            ops += gen_misc(rng, page, regions)
+            ops += gen_misc(rng, page, regions, wild)
     return ops
 
 
